@@ -284,7 +284,7 @@ def spliced(p):
     """the program rustc's chain of re-invocations finally hands to the macro: includes replaced by their source"""
     items = []
     for it in p["items"]:
-        if it[0] == "include":
+        if it[0] == "include" and not item_attrs(it):      # an attributed include_source! is an error of the invocation that meets it
             items += list(p["sources"][it[2]])
         else:
             items.append(it)
